@@ -99,7 +99,9 @@ def write_xm(song):
         b += struct.pack("<IBHH", 9, 0, len(pat), len(data)) + data
     # one instrument, one looped 8-bit sample
     ih = bytearray(struct.pack("<I", 263) + b"square".ljust(22, b"\0") + bytes([0]) + struct.pack("<H", 1))
-    ih += struct.pack("<I", 40) + bytes(96) + bytes(48) + bytes(48) + bytes([0, 0, 0, 0, 0, 0, 0, 0, 0, 0]) + bytes(4) + struct.pack("<HH", 0, 0)
+    venv = song.get('venv') or []          # volume envelope points (x, y), possibly out of order (hostile); type = on [+ sustain/loop flags]
+    vpts = b"".join(struct.pack("<HH", x & 0xffff, y & 0xffff) for x, y in venv[:12]).ljust(48, b"\0")
+    ih += struct.pack("<I", 40) + bytes(96) + vpts + bytes(48) + bytes([len(venv[:12]), 0, song.get('venv_sus', 0), song.get('venv_lps', 0), song.get('venv_lpe', 0), 0, 0, 0, song.get('venv_type', 1 if venv else 0), 0]) + bytes(4) + struct.pack("<HH", 0, 0)
     ih += bytes(263 - len(ih))
     b += ih
     b += struct.pack("<IIIBbBBbB", len(SAMPLE), 0, len(SAMPLE), 64, 0, 1, 128, 0, 0) + b"square".ljust(22, b"\0")
